@@ -131,6 +131,7 @@ class World:
         self.harness_cancelled = set()
         self.prestart_failures = []
         self.handler_intervals = {}
+        self.shield_on_cycle = {}      # id(mirror) -> cycle at which its shield was switched on
         self.native_stack = {}     # task -> list of callables telling whether that native construct has fired
 
     # ---- helpers
@@ -231,7 +232,7 @@ class World:
         except asyncio.CancelledError as e:
             now = self.cycle()
             if is_anyio_cancel(e) and kind != "start":
-                if not ms.eff() and self.last_eff.get(task, -10) < now - 2:
+                if not ms.eff() and self.last_eff.get(task, -10) < now - 2 and not self.shield_just_raised(ms, now):
                     self.bad("c04:interrupted-outside-cancelled-subtree", kind,
                              f"{kind} in scope {ms.name} raised an AnyIO cancellation at cycle {now} although the "
                              f"scope is not effectively cancelled (last seen cancelled at "
@@ -264,6 +265,16 @@ class World:
                          f"was effectively cancelled since t={se[1]}")
         finally:
             self.open_ops.pop(task, None)
+
+    def shield_just_raised(self, ms, now):
+        """A shield switched on within the last two cycles somewhere up the chain: a cancellation that was already
+        in flight may still land (grace window of the reference semantics)."""
+        m = ms
+        while m is not None:
+            if now - self.shield_on_cycle.get(id(m), -10) <= 2:
+                return True
+            m = m.parent
+        return False
 
     def guard(self):
         sc = CancelScope()
@@ -314,8 +325,10 @@ class World:
             self.cancel_name(st[1], origin)
         elif k == "shield":
             m = self.scopes.get(st[1])
-            if m is not None and m.active and m.host is task and m.kind == "scope":
+            if m is not None and m.active and m.host is task and m.kind in ("scope", "group"):
                 m.real.shield = st[2]
+                if st[2]:
+                    self.shield_on_cycle[id(m)] = self.cycle()
                 self.stats["shield_toggled"] += 1
         elif k == "raise":
             raise Boom(st[1])
